@@ -6,6 +6,8 @@
 import Rl.Sqlite
 import Rl.Spec.Sqlite
 import Rl.Lemmas.Sqlite
+import Rl.Lemmas.SqliteRefine
+import Rl.Lemmas.SqliteRefine8
 open Rl Rl.Sq
 
 /-- The refusal rule is the default history's without the consecutive-duplicate clause: a line is
@@ -195,3 +197,204 @@ example :
     (h.startsWith ftsSimple "ls!!!!!!!!".toList 0 .forward).2 = none ∧
     (h.hint ftsSimple "ls!!!!!!!!".toList 10).2 = some none ∧
     (h.startsWith ftsSimple "L".toList 0 .reverse).2 = some (0, "ls".toList, 1) := by decide
+
+/-! ### gap filling: arbitrary operation histories, refinement of the declarative store -/
+
+/-- The refusal rules are those of the default (in-memory) history: with ignore-dups off the two
+    `add`s give the same verdict on every line whenever size limit and ignore-space agree; with
+    ignore-dups on the default history additionally refuses a repeat of its newest entry (the
+    SQLite history accepts it and keeps the newest occurrence only, see `C20_order`). No
+    hypothesis on either history's content. -/
+theorem C20_refusal_eq_default (ws : Char → Bool) (h : Hist) (m : MemHist) (l : Text)
+    (hm : m.maxLen = h.maxLen) (hs : m.ignoreSpace = h.ignoreSpace) :
+    (m.ignoreDups = false → (h.add ws l).2 = (m.add ws l).2) ∧
+    ((m.add ws l).2 = false ↔
+      ((h.add ws l).2 = false ∨ (m.ignoreDups = true ∧ m.entries.getLast? = some l))) := by
+  unfold Hist.add Hist.ignore MemHist.add MemHist.ignore
+  rw [hm, hs]
+  cases l with
+  | nil => simp
+  | cons c t =>
+    by_cases hz : h.maxLen = 0
+    · simp [hz]
+    · cases hsp : h.ignoreSpace <;> cases hw : ws c <;> cases hd : m.ignoreDups <;>
+        simp [hz, hw, Hist.addEntry] <;>
+        (cases hl : m.entries.getLast? <;> simp <;> (split <;> simp_all))
+
+example : (MemHist.new 5 true false).maxLen = (Hist.openDb ⟨5, true, false⟩ {}).maxLen := rfl
+
+/-- Over every sequence of public operations on a freshly created database file the unique index
+    exists exactly when ignore-dups is on (together with `Inv`). This discharges the hypothesis
+    `h.db.index = h.ignoreDups` of `C20_order` for every reachable connection. -/
+theorem C20_index_follows_setting (ws : Char → Bool) (fts : Text → Text → Bool) (c : Cfg) (ops : List QOp) :
+    Good ((Hist.openDb c {}).run ws fts ops).1 :=
+  run_good ws fts (fresh_good c) ops
+
+/-- Refinement, one step: on a connection whose table is in rowid order and whose index follows the
+    setting (every reachable connection, `C20_index_follows_setting`), `add` does to the content
+    of the table — the rows as (session, line) pairs in order, rowids and their holes forgotten —
+    exactly what the declarative store `Spec.Sq.addLine` prescribes, with the same verdict. -/
+theorem C20_add_refines (ws : Char → Bool) (h : Hist) (hg : Good h) (l : Text) :
+    (h.add ws l).1.abs = (Spec.Sq.addLine ws h.abs l).1 ∧
+    (h.add ws l).2 = (Spec.Sq.addLine ws h.abs l).2 :=
+  ⟨(add_abs ws hg l).1, (add_abs ws hg l).2.1⟩
+
+/-- Refinement, a whole session: after ANY sequence of public operations on a fresh database file,
+    entering any list of lines gives the verdicts and the table content (as (session, line) pairs
+    in order) that the declarative store `Spec.Sq.addLines` computes from the content before —
+    refusals, order of entry, and same-session re-entries counting as their newest occurrence. -/
+theorem C20_session_refines (ws : Char → Bool) (fts : Text → Text → Bool) (c : Cfg) (ops : List QOp)
+    (ls : List Text) :
+    let h := ((Hist.openDb c {}).run ws fts ops).1
+    (addAll ws h ls).1.abs = (Spec.Sq.addLines ws h.abs ls).1 ∧
+    (addAll ws h ls).2 = (Spec.Sq.addLines ws h.abs ls).2 := by
+  intro h
+  have := addAll_abs ws (C20_index_follows_setting ws fts c ops) ls
+  exact ⟨this.1, this.2.1⟩
+
+/-- Durability in order, for arbitrary histories: take the connection after ANY sequence of public
+    operations on a fresh database file, enter any list of lines `ls`, close, and reopen with any
+    configuration `c'` (if `c'` turns ignore-dups on, the table must not hold same-session
+    duplicates recorded while it was off — otherwise `C20_dedupe` applies). Then walking from the
+    newest entry to the oldest shows exactly the lines of the declarative store
+    (`Spec.Sq.addLines` on the content before), each stored line once, newest first, and the walk
+    back shows the same rows but the oldest, oldest first. -/
+theorem C20_session_walk_reopen (ws : Char → Bool) (fts : Text → Text → Bool) (c : Cfg) (ops : List QOp)
+    (ls : List Text) (c' : Cfg) (fuel : Nat) :
+    let h := ((Hist.openDb c {}).run ws fts ops).1
+    let h' := (addAll ws h ls).1
+    (c'.ignoreDups = true → h'.db.index = false → hasDup h'.db.rows = false) →
+    h'.db.rows.length < fuel →
+    ((walk (Hist.openDb c' h'.db) fuel).1.map (·.2) =
+        (Spec.Sq.lines (Spec.Sq.addLines ws h.abs ls).1).reverse ∧
+     (walk (Hist.openDb c' h'.db) fuel).2 = (walk (Hist.openDb c' h'.db) fuel).1.reverse.drop 1) := by
+  intro h h' hnd hf
+  obtain ⟨a1, _, a3⟩ := addAll_abs ws (C20_index_follows_setting ws fts c ops) ls
+  have hw := (C20_reopen h' a3.inv c' hnd fuel hf).2
+  rw [hw, C20_walk h' a3.inv fuel hf]
+  refine ⟨?_, ?_⟩
+  · rw [← a1]
+    simp only [Spec.Sq.lines, Hist.abs, List.map_reverse, List.map_map]
+    congr 1
+  · simp only [← List.map_reverse, List.reverse_reverse, ← List.map_drop, List.drop_one]
+
+/-- non-vacuity: a run with a duplicate, a trim and a reopening, then a session re-entering a line -/
+example :
+    let h := ((Hist.openDb ⟨100, true, true⟩ {}).run (fun c => c == ' ') ftsSimple
+      [.add "a".toList, .add "b".toList, .add "a".toList, .setMax 2, .reopen ⟨100, true, true⟩]).1
+    let h' := (addAll (fun c => c == ' ') h ["a".toList, " x".toList, "c".toList, "a".toList]).1
+    hasDup h'.db.rows = false ∧ h'.db.rows.map (·.rowid) = [2, 3, 5, 6] ∧
+    (walk (Hist.openDb ⟨100, false, true⟩ h'.db) 10).1.map (·.2) =
+      ["a".toList, "c".toList, "a".toList, "b".toList] := by decide
+
+/-- the declarative store's initial state for a configuration (the one the driver judges with) -/
+def C20_spec0 (c : Cfg) : Spec.Sq.SState :=
+  { max := c.maxLen, ignoreSpace := c.ignoreSpace, ignoreDups := c.ignoreDups }
+
+/-- Refinement over arbitrary operation histories: for EVERY sequence of public operations (adds,
+    limits, both toggles, reopenings, abrupt terminations, reads, searches, hints) on a fresh
+    database file and every FTS oracle, the lines stored in the table, in rowid order, are exactly
+    the lines of the declarative store of Rl/Spec/Sqlite.lean run over the same operations
+    (`specAfter`: the state component of `judge`), and the settings agree. The model's session
+    ids (one per connection that stored something) and the spec's epochs (one per open) are
+    related by a renaming, so "same session" means the same on both sides; holes in the rowids
+    play no role. -/
+theorem C20_run_refines (ws : Char → Bool) (fts : Text → Text → Bool) (c : Cfg) (ops : List QOp) :
+    let r := (Hist.openDb c {}).run ws fts ops
+    let s := specAfter ws (C20_spec0 c) ops r.2
+    r.1.db.rows.map (·.entry) = Spec.Sq.lines s ∧
+    r.1.maxLen = s.max ∧ r.1.ignoreSpace = s.ignoreSpace ∧ r.1.ignoreDups = s.ignoreDups := by
+  intro r s
+  obtain ⟨_, hs⟩ := run_sim ws fts (fresh_good2 c) (fresh_sim c) ops
+  have hl := hs.lines
+  refine ⟨?_, hs.max, hs.space, hs.dups⟩
+  refine Eq.trans ?_ hl
+  simp [Spec.Sq.lines, Hist.abs, key, List.map_map, Function.comp_def, r]
+
+/-- The walk shows exactly the accepted lines, for arbitrary operation histories: after EVERY
+    sequence of public operations on a fresh database file, previous-history from the line being
+    edited down to the oldest entry shows the lines of the declarative store, newest first, each
+    stored line once, and next-history back shows the same entries but the oldest in the opposite
+    order — the first and third checks of the spec's `walk` verdict. (`fuel` only bounds the
+    loop of the model's walk.) -/
+theorem C20_walk_shows_spec_lines (ws : Char → Bool) (fts : Text → Text → Bool) (c : Cfg) (ops : List QOp)
+    (fuel : Nat) (hf : ((Hist.openDb c {}).run ws fts ops).1.db.rows.length < fuel) :
+    let r := (Hist.openDb c {}).run ws fts ops
+    let s := specAfter ws (C20_spec0 c) ops r.2
+    (walk r.1 fuel).1.map (·.2) = (Spec.Sq.lines s).reverse ∧
+    (walk r.1 fuel).2 = (walk r.1 fuel).1.reverse.drop 1 := by
+  intro r s
+  have h1 := (C20_run_refines ws fts c ops).1
+  rw [C20_walk_run ws fts c ops fuel hf]
+  refine ⟨?_, ?_⟩
+  · show _ = (Spec.Sq.lines (specAfter ws (C20_spec0 c) ops ((Hist.openDb c {}).run ws fts ops).2)).reverse
+    rw [← h1]
+    simp only [List.map_reverse, List.map_map]
+    congr 1
+  · simp only [← List.map_reverse, List.reverse_reverse, ← List.map_drop, List.drop_one]
+
+/-- The model satisfies the declarative spec on the whole store fragment: for EVERY sequence of
+    add / set_max_len / ignore_dups / ignore_space / reopen / abrupt-termination / len operations
+    on a fresh database file, the spec's judge accepts every answer of the model (`judgeAll` is
+    the function the driver runs on the implementation's answers) — in particular every `add`
+    verdict, also those of a child that is gone without closing, is the one the refusal rules
+    prescribe. -/
+theorem C20_store_ops_judged (ws : Char → Bool) (fts : Text → Text → Bool) (c : Cfg) (ops : List QOp)
+    (hall : ops.all isStore = true) :
+    Spec.Sq.judgeAll ws (C20_spec0 c) 0 (ops.zip ((Hist.openDb c {}).run ws fts ops).2) = none :=
+  run_judge_store ws fts (fresh_good2 c) (fresh_sim c) ops hall 0
+
+example : [QOp.add "a".toList, .dups false, .add "a".toList, .crash ⟨3, true, true⟩ [" b".toList, "c".toList],
+    .setMax 1, .len].all isStore = true := by decide
+
+/-- Observation (not a violation of C20 as stated, but a difference to the default history): the
+    size limit is enforced by `set_max_len` only — `add` never trims, so the number of stored
+    lines may exceed `max_len`. Replay: `sqlite 1 0 1 add:97 add:98 walk` shows two entries. -/
+theorem C20_limit_not_enforced_on_add :
+    let h := ((Hist.openDb ⟨1, false, true⟩ {}).run (fun c => c == ' ') ftsSimple
+      [.add "a".toList, .add "b".toList]).1
+    h.maxLen = 1 ∧ h.db.rows.length = 2 := by decide
+
+/-- The model satisfies the declarative spec on every run: for EVERY sequence of public
+    operations on a fresh database file — add, set_max_len, both toggles, reopen, abrupt
+    termination, len, get, walk, search, starts_with, hint — and every FTS oracle, the spec's
+    judge (`Spec.Sq.judgeAll`, the function the driver applies to the real crate's answers)
+    accepts every answer of the model: add verdicts follow the refusal rules; `get` returns a
+    stored line; the walk shows exactly the accepted lines newest→oldest with strictly decreasing
+    indices and the same entries but the oldest on the way back; a search / prefix search answers
+    nothing or a stored line that contains / starts with the text ignoring case at the reported
+    offset; the hinter does not panic and its hint completes the typed text to a stored line.
+    Only hypothesis: the table never holds `walkFuel` = 10000 rows or more (the bound of the walk
+    loops in model and harness). -/
+theorem C20_model_satisfies_spec (ws : Char → Bool) (fts : Text → Text → Bool) (c : Cfg) (ops : List QOp)
+    (hfuel : ∀ n, ((Hist.openDb c {}).run ws fts (ops.take n)).1.db.rows.length < walkFuel) :
+    Spec.Sq.judgeAll ws (C20_spec0 c) 0 (ops.zip ((Hist.openDb c {}).run ws fts ops).2) = none :=
+  run_judge_full ws fts (fresh_good2 c) (fresh_sim c) ops hfuel 0
+
+/-- … without any hypothesis when the run contains no `walk`. -/
+theorem C20_model_satisfies_spec_nowalk (ws : Char → Bool) (fts : Text → Text → Bool) (c : Cfg) (ops : List QOp)
+    (hall : ops.all (fun op => isStore op || isRead op) = true) :
+    Spec.Sq.judgeAll ws (C20_spec0 c) 0 (ops.zip ((Hist.openDb c {}).run ws fts ops).2) = none :=
+  run_judge_all ws fts (fresh_good2 c) (fresh_sim c) ops hall 0
+
+example : [QOp.add "ls".toList, .search "\"".toList 0 .forward, .hint "l".toList, .get 0 .reverse,
+    .startsWith "L".toList 0 .reverse].all (fun op => isStore op || isRead op) = true := by decide
+
+/-- … and the 10000-row hypothesis is discharged by counting: if fewer than `walkFuel` = 10000
+    lines are offered to `add` in the whole run (`offeredAll`: one per `add`, the length of the
+    list for an abruptly terminated child), the judge accepts every answer of the model, for
+    EVERY operation sequence on a fresh database file and every FTS oracle. -/
+theorem C20_model_satisfies_spec_bounded (ws : Char → Bool) (fts : Text → Text → Bool) (c : Cfg) (ops : List QOp)
+    (hb : offeredAll ops < walkFuel) :
+    Spec.Sq.judgeAll ws (C20_spec0 c) 0 (ops.zip ((Hist.openDb c {}).run ws fts ops).2) = none := by
+  apply C20_model_satisfies_spec
+  intro n
+  have h1 := run_len ws fts (fresh_good2 c) (fresh_sim c) (ops.take n)
+  have h2 := offeredAll_take ops n
+  have h3 : (Hist.openDb c {}).db.rows.length = 0 := by
+    obtain ⟨ml, isp, idp⟩ := c
+    cases idp <;> simp [Hist.openDb, Hist.checkSchema, Hist.setIgnoreDupsIndex, hasDup]
+  omega
+
+example : offeredAll [QOp.add "a".toList, .walk, .crash ⟨3, true, true⟩ ["b".toList, "c".toList], .walk] < walkFuel := by
+  decide
